@@ -4304,6 +4304,14 @@ annotate_sysfsnode(struct hwloc_topology *topology,
   return 0;
 }
 
+#ifdef HWLOC_VERIF
+/* verification hook (off unless built with -DHWLOC_VERIF): called when the NUMA nodes are about to be read from sysfs */
+void (*hwloc_verif_linuxnode_cb)(struct hwloc_topology *topology, int root_fd,
+				 int use_numa_distances, int use_numa_distances_for_cpuless, int use_numa_initiators,
+				 int is_knl, int is_fake_numa_uniform, int arch_power,
+				 int need_memcaches, int need_memattrs) = NULL;
+#endif
+
 static int
 look_sysfsnode(struct hwloc_topology *topology,
 	       struct hwloc_linux_backend_data_s *data,
@@ -4326,6 +4334,13 @@ look_sysfsnode(struct hwloc_topology *topology,
   int need_memattrs = !(topology->flags & HWLOC_TOPOLOGY_FLAG_NO_MEMATTRS);
 
   hwloc_debug("\n\n * Topology extraction from /sys/devices/system/node *\n\n");
+#ifdef HWLOC_VERIF
+  if (hwloc_verif_linuxnode_cb)
+    hwloc_verif_linuxnode_cb(topology, data->root_fd,
+			     data->use_numa_distances, data->use_numa_distances_for_cpuless, data->use_numa_initiators,
+			     data->is_knl, data->is_fake_numa_uniform, data->arch == HWLOC_LINUX_ARCH_POWER,
+			     need_memcaches, need_memattrs);
+#endif
 
   if (data->is_fake_numa_uniform) {
     hwloc_debug("Disabling memory-side caches, memory attributes and HMAT initiators because of fake numa\n");
